@@ -41,10 +41,11 @@ func (c01) Plan(tier string) fw.Plan {
 var c01Opts = model.GenOpts{MaxDepth: 5, MaxWidth: 7, Uint: true, NonUTF8: true, Links: true, NaNInf: true, Wide: true}
 
 var (
-	c01TS      *schema.TypeSystem
-	c01AnyP    schema.TypedPrototype
-	c01MapAnyP schema.TypedPrototype
-	c01LstAnyP schema.TypedPrototype
+	c01TS        *schema.TypeSystem
+	c01AnyP      schema.TypedPrototype
+	c01MapAnyP   schema.TypedPrototype
+	c01LstAnyP   schema.TypedPrototype
+	c01MapAnyNNP schema.TypedPrototype
 )
 
 func c01Init() {
@@ -57,10 +58,12 @@ func c01Init() {
 	ts.Accumulate(schema.SpawnAny("Any"))
 	ts.Accumulate(schema.SpawnMap("MapAny", "String", "Any", true)) // nullable: bindnode keeps null out of a plain Any
 	ts.Accumulate(schema.SpawnList("ListAny", "Any", true))
+	ts.Accumulate(schema.SpawnMap("MapAnyNN", "String", "Any", false)) // values held as datamodel.Node itself, no pointer
 	c01TS = ts
 	c01AnyP = bindnode.Prototype((*datamodel.Node)(nil), ts.TypeByName("Any"))
 	c01MapAnyP = bindnode.Prototype(nil, ts.TypeByName("MapAny"))
 	c01LstAnyP = bindnode.Prototype(nil, ts.TypeByName("ListAny"))
+	c01MapAnyNNP = bindnode.Prototype(nil, ts.TypeByName("MapAnyNN"))
 }
 
 func hasNaN(v model.Val) bool {
